@@ -202,8 +202,11 @@ func runHttp(t *testing.T, interval, timeout int, acts []htAct) (h *htRun, leake
 			}
 		}
 		for _, a := range acts {
+			trStep()
 			var coq []string
 			switch a.Op {
+			case "T": // the bubble's clock advances (not the fake clock the cleaner runs on): no action of the model
+				time.Sleep(time.Duration(a.D) * time.Millisecond)
 			case "P":
 				h.mu.Lock()
 				q := len(h.qDone)
@@ -391,7 +394,9 @@ func runHttp(t *testing.T, interval, timeout int, acts []htAct) (h *htRun, leake
 
 func emitHttp(em *Emitter, t *testing.T, idx int, interval, timeout int, acts []htAct, tag string) *htRun {
 	em.Marker("begin", idx)
+	unguard := trGuard(em, idx, "http-lockstep", map[string]any{"interval": interval, "timeout": timeout, "acts": acts}, []string{"http:" + tag})
 	h, leaked := runHttp(t, interval, timeout, acts)
+	unguard()
 	tags := []string{"http:" + tag, fmt.Sprintf("http-len:%d", len(acts))}
 	if leaked {
 		tags = append(tags, "http-leaked")
@@ -466,6 +471,9 @@ func TestC19Http(t *testing.T) {
 		}
 		ext := []htAct{{Op: "P", Kind: "ok:a"}, {Op: "P", Kind: "ok:d"}, {Op: "P", Kind: trInvalidKinds[bad%len(trInvalidKinds)]},
 			{Op: "A", D: 60}, {Op: "A", D: 30}, {Op: "N", C: 0}}
+		if len(prefix) > 0 && prefix[len(prefix)-1].Op != "T" {
+			ext = append(ext, htAct{Op: "T", D: 1000})
+		}
 		bad++
 		if nconn > 0 {
 			ext = append(ext, htAct{Op: "R", C: nconn - 1}, htAct{Op: "WF", C: 0})
@@ -510,9 +518,12 @@ func TestC19Http(t *testing.T) {
 			case 9, 10:
 				acts = append(acts, htAct{Op: "A", D: []int{1, iv / 2, iv, iv + 1, tmo, 2 * iv, 3*iv + 1}[r.Intn(7)]})
 			case 11:
-				if r.Intn(4) == 0 {
+				switch r.Intn(4) {
+				case 0:
 					acts = append(acts, htAct{Op: "S"})
-				} else {
+				case 1:
+					acts = append(acts, htAct{Op: "T", D: []int{1, 50, 1000, 100000}[r.Intn(4)]})
+				default:
 					acts = append(acts, htAct{Op: "A", D: iv})
 				}
 			}
